@@ -43,6 +43,8 @@ def square_cases(rng, n, quick):
         out.append(('first-column-already-reduced', Z))
     out.append(('sparse', qx.rand_int(rng, n, n, -3, 3, density=0.4)))
     out.append(('zero', qx.zeros(n, n)))
+    out.append(('weak-first-column', [[A[i][j] * Q(Fraction(1, 2 ** 30)) if j == 0 else A[i][j] for j in range(n)] for i in range(n)]))
+    out.append(('weak-last-rows', [[A[i][j] * Q(Fraction(1, 2 ** 30)) if i >= 2 else A[i][j] for j in range(n)] for i in range(n)]))
     out.append(('exchange', [[Q(1) if i + j == n - 1 else Q() for j in range(n)] for i in range(n)]))
     out.append(('cyclic-shift-2', [[Q(0, 0, 1, 0) if (i - j) % n == 2 % n else Q() for j in range(n)] for i in range(n)]))
     out.append(('pure-imaginary', [[Q(0, a.x, a.y, a.z) for a in r] for r in A]))
@@ -72,7 +74,7 @@ def run(ctx):
     hterms = []; cterms = []
     for n in range(1, top + 1):
         for cls, A in square_cases(rng, n, ctx.quick()):
-            for sname, s in (('1', 1.0), ('2^27', 2.0 ** 27), ('2^-27', 2.0 ** -27)) if cls in ('integer', 'hermitian', 'zero-subdiagonal-entry', 'sparse') else (('1', 1.0),):
+            for sname, s in (('1', 1.0), ('2^27', 2.0 ** 27), ('2^-27', 2.0 ** -27), ('2^-40', 2.0 ** -40)) if cls in ('integer', 'hermitian', 'zero-subdiagonal-entry', 'sparse') else (('1', 1.0),):
                 An = qx.to_np(A) * s; nA = fro(An); sc = max(nA, 1e-300)
                 inp = {'n': n, 'class': cls, 'scale': sname, 'A': [[[str(c) for c in a.t()] for a in row] for row in A]}
                 suffix = '' if s == 1.0 else ':scaled'
@@ -121,7 +123,7 @@ def run(ctx):
             bad = [i for i, x in enumerate(res) if not x]
             if bad: ctx.broken.append(f'Hessenberg model ({fn}) and implementation disagree on {len(bad)} of {len(res)} case(s), first: {terms[bad[0]][:400]}')
     ctx.cov['rule'] = (f'n = 1..{top}; integer, generic, Hermitian, already Hessenberg, upper / lower triangular, zero first column, zero sub-diagonal entry, first column already reduced, sparse, zero, exchange and cyclic-shift permutations, pure-imaginary '
-                       '(thorough: unitary, rank one), scaled by 2^27 and 2^-27: P unitary, H = P A P^H, entries below the first sub-diagonal negligible, input untouched, Frobenius norm, real trace and singular values preserved; '
+                       '(thorough: unitary, rank one), weak first column / weak trailing rows (2^-30), scaled by 2^27, 2^-27 and 2^-40: P unitary, H = P A P^H, entries below the first sub-diagonal negligible, input untouched, Frobenius norm, real trace and singular values preserved; '
                        f'{NC} matrices with entries around atol for the clean-up and the predicate (exact). Discarded = correspondence cases with a tiny non-zero sub-column.')
     return cm.finish(ctx, 'proof', '', ASSUME)
 
